@@ -10,7 +10,7 @@
     [on_change_sample_rate] ([C13.Run.CaseSR]: coefficients of the new rate, state carried over
     or lines rebuilt as [change_rate] says). *)
 From Coq Require Import ZArith QArith List Bool.
-From KV Require Import Base.IEEE Base.Outcome Base.Corr C13.ModelOps C19.ModelF32 C13.Run C14.SpecFreeverb C14.SpecQ.
+From KV Require Import Base.IEEE Base.Outcome Base.Corr C13.ModelOps C13.ModelTree C19.ModelF32 C13.Run C14.SpecFreeverb C14.SpecQ.
 Import ListNotations.
 Local Open Scope Z_scope.
 
@@ -25,7 +25,11 @@ Inductive case :=
     H_eq_proto kind (rA^2) q (i om); all numbers binary64 bit patterns *)
 | CSpecFilter (mode : Z) (k om : Z) (re im : Z)
 | CSpecEq (kind : Z) (rA q om : Z) (re im : Z)
-| CTrace (c : C13.Run.case).
+| CTrace (c : C13.Run.case)
+(** a HISTORY of device rates: segments (rate, slice sizes, input); [init] at the first rate, [on_change_sample_rate]
+    ([change_rate], with the effect compiled for the new rate) before every later segment — any number of
+    changes, repeats and returns to an earlier rate included *)
+| CHist (T : Z) (tab : list (Z * Z * Z)) (e : C13.Run.edesc) (segs : list (Z * list Z * list (Z * Z))).
 
 (** [10.0f32.powf(x)] as a table (argument bits, result bits) recorded from the platform's libm *)
 Fixpoint lookup2 (tab : list (Z * Z)) (x : Z) : option Z :=
@@ -73,6 +77,18 @@ Definition cq_close (a b : CQ) : bool :=
 Definition verdict (den h spec_val : CQ) : list Z :=
   if Qeq_bool (cq_norm2 den) 0 then [2] else if cq_close h spec_val then [1] else [0].
 
+Fixpoint hist_go (T : nat) (tab : list (Z * Z * Z)) (d : C13.Run.edesc) (s : estate f32) (first : bool)
+         (segs : list (Z * list Z * list (Z * Z))) : outcome (list (frame f32)) :=
+  match segs with
+  | [] => Ok []
+  | (sr, sl, inp) :: rest =>
+      let e := compile sr tab d in
+      let s0 := if first then s else change_rate e s in
+      let! (s1, o1) := process_slices consts_f32 T e s0 (split_by (map Z.to_nat sl) (frames inp)) in
+      let! o2 := hist_go T tab d s1 false rest in
+      Ok (o1 ++ o2)
+  end.
+
 Definition run (c : case) : list Z :=
   match c with
   | CVol db tab input =>
@@ -103,4 +119,10 @@ Definition run (c : case) : list Z :=
       let s := (0%Q, qb om) in
       verdict (eq_den_Q (kind_of kind) (qb rA) (qb q) s) (H_eq_proto_Q (kind_of kind) (qb rA) (qb q) s) (qb re, qb im)
   | CTrace c13 => C13.Run.run c13
+  | CHist T tab d segs =>
+      match segs with
+      | [] => encode_outcome enc_frames (Ok [])
+      | (sr0, _, _) :: _ =>
+          encode_outcome enc_frames (hist_go (Z.to_nat T) tab d (init (compile sr0 tab d)) true segs)
+      end
   end.
